@@ -240,13 +240,15 @@ func runC18Case(tier string, seed uint64, idx int, keepDir string) *CaseResult {
 	sc.ResultFormat = 1
 	sc.DailyCols = pairDailyCols(sc.Soil.N())
 	sc.Latitude = float64(r.Range(350, 600)) / 10 // a climate in which the crops develop
-	c13Rotation(sc, r, cf[0], cf[1], 0.15)
-	// target: the rotation entry of that file, sown inside the period
+	// target: the rotation entry of that file, sown inside the period (second attempt: directly after the initial crop)
 	target := -1
-	for i := 1; i < len(sc.Rotation); i++ {
-		if sc.Rotation[i].Crop == cf[0] && sc.Rotation[i].Variety == cf[1] && sc.Rotation[i].Sow.Zeit() < sc.End.Zeit()-60 {
-			target = i
-			break
+	for attempt := 0; attempt < 2 && target < 0; attempt++ {
+		c13Rotation(sc, r, cf[0], cf[1], []float64{0.15, 0}[attempt])
+		for i := 1; i < len(sc.Rotation); i++ {
+			if sc.Rotation[i].Crop == cf[0] && sc.Rotation[i].Variety == cf[1] && sc.Rotation[i].Sow.Zeit() < sc.End.Zeit()-60 {
+				target = i
+				break
+			}
 		}
 	}
 	if target < 0 {
